@@ -20,6 +20,8 @@ Section C09.
   Variable tmpl : N -> lbls -> option string.
   Notation run_stage := (run_stage V v0 v1 vadd vdiv vltb vleb veqb vofZ panic_kills fpf re_match pfloat parse tmpl).
   Notation sem_stage := (sem_stage V v0 v1 vadd vdiv vltb vleb veqb vofZ fpf re_match pfloat parse tmpl).
+  Notation run_chain := (run_chain V v0 v1 vadd vdiv vltb vleb veqb vofZ panic_kills fpf re_match pfloat parse tmpl).
+  Notation sem_chain := (sem_chain V v0 v1 vadd vdiv vltb vleb veqb vofZ fpf re_match pfloat parse tmpl).
 
   (* line filter, label filter, comparison: for every batching (empty batches, cuts inside a series)
      the entries sent are those of the flat input the reference semantics keeps, in order *)
@@ -90,6 +92,43 @@ Section C09.
   Theorem batching_invariant_optimizer : forall c bs f,
     proj V f (List.concat (run_stage c (SOptimizer V) bs)) = proj V f (List.concat bs).
   Proof. intros. cbn [InternalEngine.run_stage]. exact (wrap_optimizer V v0 panic_kills f bs [] 0 I eq_refl). Qed.
+
+  (* stage_meets_definition, for every stage whose reference semantics is per entry or positional (line filter, label
+     filter, label_format, line_format, unwrap, drop, by/without, comparison, limit): on a stream of data rows followed
+     by its terminator, in ANY batching, the stage sends the entries the reference semantics prescribes — same
+     timestamps, label sets, lines and values in the same order (the fingerprint is not part of the definition) *)
+  Theorem stage_meets_definition_simple_stages : forall c s rows t bs,
+    0 <= c_limit c -> simple_stage V s = true ->
+    Forall (data_row V) rows -> Forall (terminator V) t -> List.concat bs = rows ++ t ->
+    map (erase V) (data_of V (List.concat (run_stage c s bs))) = map (erase V) (sem_stage c s rows).
+  Proof. exact (stage_agrees V v0 v1 vadd vdiv vltb vleb veqb vofZ panic_kills fpf re_match pfloat parse tmpl). Qed.
+
+  (* engines_agree, relative to the reference semantics sem_chain of model/InternalEngine.v (the SQL engine's side of the
+     statement is the tie of sem_chain to the generated SQL, which belongs to the C07/C08 models): for every chain of
+     simple stages, every stream of data rows with its terminator and EVERY batching of it into channel messages, the
+     data entries that leave the in-process chain are those of the reference semantics.                                  *)
+  Theorem engines_agree : forall c ch rows t bs,
+    0 <= c_limit c -> forallb (simple_stage V) ch = true ->
+    Forall (data_row V) rows -> Forall (terminator V) t -> List.concat bs = rows ++ t ->
+    map (erase V) (data_of V (List.concat (run_chain c ch bs))) = map (erase V) (sem_chain c ch (List.concat bs)).
+  Proof. exact (chain_agrees V v0 v1 vadd vdiv vltb vleb veqb vofZ panic_kills fpf re_match pfloat parse tmpl). Qed.
+
+  (* the same with the split-point stage json / logfmt in front, when every line decodes *)
+  Theorem engines_agree_after_parser : forall c id ch rows t bs,
+    0 <= c_limit c -> forallb (simple_stage V) ch = true ->
+    Forall (data_row V) rows -> Forall (decodes V parse id) rows -> Forall (terminator V) t -> List.concat bs = rows ++ t ->
+    map (erase V) (data_of V (List.concat (run_chain c (SParser V id :: ch) bs))) =
+    map (erase V) (sem_chain c (SParser V id :: ch) (List.concat bs)).
+  Proof. exact (chain_agrees_parser_first V v0 v1 vadd vdiv vltb vleb veqb vofZ panic_kills fpf re_match pfloat parse tmpl). Qed.
+
+  (* the partial statement for json / logfmt: under the guard that every line decodes, the stage meets its definition *)
+  Theorem stage_meets_definition_parser_partial : forall c id rows t bs,
+    0 <= c_limit c ->
+    Forall (data_row V) rows -> Forall (decodes V parse id) rows -> Forall (terminator V) t -> List.concat bs = rows ++ t ->
+    map (erase V) (data_of V (List.concat (run_chain c [SParser V id] bs))) = map (erase V) (sem_chain c [SParser V id] (List.concat bs)).
+  Proof.
+    intros c id rows t bs HL. exact (chain_agrees_parser_first V v0 v1 vadd vdiv vltb vleb veqb vofZ panic_kills fpf re_match pfloat parse tmpl c id [] rows t bs HL eq_refl).
+  Qed.
 End C09.
 
 Print Assumptions batching_invariant_line_filter.
@@ -104,6 +143,10 @@ Print Assumptions batching_invariant_parser.
 Print Assumptions limit_same_meaning.
 Print Assumptions batching_invariant_aggregation.
 Print Assumptions batching_invariant_optimizer.
+Print Assumptions stage_meets_definition_simple_stages.
+Print Assumptions engines_agree.
+Print Assumptions engines_agree_after_parser.
+Print Assumptions stage_meets_definition_parser_partial.
 
 (* hash.go: the fingerprint does not depend on the order in which Go ranges over the label map *)
 Theorem fingerprint_order_independent : forall (ch64 : string -> N) (m1 m2 : lbls),
@@ -119,3 +162,32 @@ Proof.
   exists [("a", "bc")]%string, [("ab", "c")]%string. split; [discriminate|exact hash_collision_witness].
 Qed.
 Print Assumptions distinct_labels_distinct_series_refuted.
+
+(* stage_meets_definition for json / logfmt is FALSE of the code: the definition keeps a line that does not decode (with
+   its stream labels), the code fails the whole request.  Witness: one row whose line the decoder rejects.              *)
+Theorem stage_meets_definition_parser_refuted :
+  exists (parse : N -> string -> option lbls) (rows : list (entry Z)),
+    Forall (data_row Z) rows /\
+    outcome_of Z (run_stage Z 0 1 Z.add Z.div Z.ltb Z.leb Z.eqb (fun z => z) false (fun _ => 0%N) (fun _ _ => false) (fun _ => None)
+                            parse (fun _ _ => None) {| c_from := 0; c_to := 10; c_limit := 0 |} (SParser Z 0%N) [rows])
+    <> OResult Z (sem_stage Z 0 1 Z.add Z.div Z.ltb Z.leb Z.eqb (fun z => z) (fun _ => 0%N) (fun _ _ => false) (fun _ => None)
+                            parse (fun _ _ => None) {| c_from := 0; c_to := 10; c_limit := 0 |} (SParser Z 0%N) rows).
+Proof.
+  exists (fun _ _ => None), [{| e_ts := 1; e_fp := 7%N; e_lbl := Some [("app", "x")]%string; e_msg := "[1,2]"%string; e_val := 0; e_err := ENone |}].
+  split; [constructor; [split; [reflexivity|eexists; reflexivity]|constructor]|]. vm_compute. discriminate.
+Qed.
+Print Assumptions stage_meets_definition_parser_refuted.
+
+(* the hypotheses of the agreement theorems are met by a non-trivial stream: two rows of two series, an io.EOF
+   terminator, three batches one of which is empty, a decoder that accepts both lines *)
+Example agreement_hypotheses_met :
+  let r1 := {| e_ts := 1; e_fp := 7%N; e_lbl := Some [("app", "x")]%string; e_msg := "a=1"%string; e_val := 0; e_err := ENone |} in
+  let r2 := {| e_ts := 2; e_fp := 8%N; e_lbl := Some [("app", "y")]%string; e_msg := "a=2"%string; e_val := 0; e_err := ENone |} in
+  let eof := {| e_ts := 0; e_fp := 0%N; e_lbl := None; e_msg := EmptyString; e_val := 0; e_err := EEof |} in
+  let parse := fun (_ : N) (s : string) => Some [("a", s)]%string in
+  let ch := [SLineFilter Z LfContains "a"%string; SLabelFormat Z [LFConst "k" "v"]%string; SLimit Z] in
+  Forall (data_row Z) [r1; r2] /\ Forall (decodes Z parse 0%N) [r1; r2] /\ Forall (terminator Z) [eof] /\
+  List.concat [[r1]; []; [r2; eof]] = [r1; r2] ++ [eof] /\ forallb (simple_stage Z) ch = true.
+Proof.
+  cbv zeta. repeat split; try (repeat constructor; try eexists; try reflexivity; try discriminate).
+Qed.
